@@ -89,7 +89,7 @@ def cases(tier, seed):
                     continue
                 for m in methods:
                     iscall = m == "closed" or m.startswith("wrap:")
-                    for opts in ([0, 1] if iscall else [0]):
+                    for opts in ([0, 1, 2] if iscall else [0]):     # 2: a harness-only keyword whose value is None
                         for order in (0, 1, 2):
                             if m == "closed" and fn in ("Interp1D", "SQuad") and order > 0:
                                 continue      # a detached interpolant has no derivative: documented exclusion
@@ -297,6 +297,8 @@ def run_method(cfg):
         caller = {"maxiter": 7}
     if cfg["opts"] == 1:
         caller[EXTRA_KEY] = EXTRA_VAL
+    elif cfg["opts"] == 2:
+        caller[EXTRA_KEY] = None        # an option explicitly set to None is still the caller's option
 
     def bck_for(b):
         """explicit backward method b (+ its options) for functionals that would re-use the forward method"""
